@@ -376,3 +376,52 @@ func keysOf(m map[string]ssa.Instruction) map[string]bool {
 	}
 	return out
 }
+
+// ------------------------------------------------------------------ C20.R9
+// F30: "returned whenever an honest full node answers". The light client's Update answers (nil, nil) when
+// there is nothing newer than the latest trusted block; code that takes its first result for a block without
+// testing it dereferences nil on the honest path (Commit(nil), Validators(nil) right after a previous call).
+func init() {
+	register("C20", "R9", "K1", "the light client's Update result (nil when nothing is newer) is tested before it is used as a block", 1, func(c *Ctx) {
+		w := c.W
+		k := newKeyer()
+		n := 0
+		for _, s := range w.allCallsTo("light/rpc#LightClient.Update", "light#Client.Update") {
+			if !strings.HasPrefix(relPkg(s.Fn), "light/rpc") && relPkg(s.Fn) != "light/proxy" {
+				continue
+			}
+			call, ok := s.Instr.(*ssa.Call)
+			if !ok {
+				continue
+			}
+			var blk, errv ssa.Value
+			for _, r := range *call.Referrers() {
+				if ex, ok := r.(*ssa.Extract); ok {
+					if ex.Index == 0 {
+						blk = ex
+					} else {
+						errv = ex
+					}
+				}
+			}
+			if blk == nil || len(*blk.Referrers()) == 0 {
+				continue // result not used as a block
+			}
+			n++
+			f := s.Fn
+			blocked := map[Edge]bool{}
+			for _, ea := range condEdges(f) {
+				if (ea.A.Kind == "nil" || ea.A.Kind == "nonnil") && ea.A.V != nil && sameValue(ea.A.V, blk) {
+					blocked[ea.E] = true
+				}
+				if ea.A.Kind == "nonnil" && errv != nil && ea.A.V != nil && sameValue(ea.A.V, errv) {
+					blocked[ea.E] = true
+				}
+			}
+			q := &pathQ{blocked: func(e Edge) bool { return blocked[e] }, target: func(in ssa.Instruction) bool { return isReturn(in) && in.Block().Comment != "recover" }}
+			hit, path := q.reach(call.Block(), instrIndex(call)+1)
+			c.Check(hit == nil, k.key(f, "Update's block is tested for nil before the function goes on with it"), w.ipos(call), "nil test (or the error path) on every way on", "the block returned by Update is passed on untested: when nothing is newer it is nil and the caller dereferences it: "+pathStr(w, path))
+		}
+		c.Check(n >= 1, "light/rpc :: uses of Update's result found", "-", ">= 1", fmt.Sprintf("%d", n))
+	})
+}
